@@ -265,9 +265,9 @@ class IxProxy(object):
         try:
             w = self._ix.writer(**kw)
         except LockError:
-            self.attempts.append((threading.current_thread() is threading.main_thread(), "locked"))
+            self.attempts.append((threading.current_thread(), "locked"))
             raise
-        self.attempts.append((threading.current_thread() is threading.main_thread(), "ok"))
+        self.attempts.append((threading.current_thread(), "ok"))
         return w
 
     def __getattr__(self, name):
@@ -282,6 +282,26 @@ def join_or_die(th, what, seconds=60):
 
 class Hang(Exception):
     pass
+
+
+def bounded(what, fn, *args, **kw):
+    """Run fn in a helper thread; AsyncWriter promises to try ONCE for the lock and then buffer, so its constructor
+    blocking on a held lock is a failure of bounded progress, not something to sit out until the shard watchdog."""
+    box = {}
+
+    def target():
+        try:
+            box["value"] = fn(*args, **kw)
+        except BaseException as e:  # noqa
+            box["error"] = e
+    th = threading.Thread(target=target, daemon=True)
+    th.start()
+    th.join(60)
+    if th.is_alive():
+        raise Hang(what)
+    if "error" in box:
+        raise box["error"]
+    return box["value"]
 
 
 _thread_errors = []
@@ -344,8 +364,8 @@ def run_async_tx(ix, wa, prev_tx, tx, plan, stats):
         return
     blocker = ix.writer(**wa)
     px = IxProxy(ix)
-    aw = writing.AsyncWriter(px, delay=plan["delay"], writerargs=dict(wa))
-    aw.daemon = True            # a retry loop that can never succeed must not keep the worker process alive
+    aw = bounded("AsyncWriter() blocks on a held lock", writing.AsyncWriter, px, delay=plan["delay"], writerargs=dict(wa))
+    aw.daemon = True           # a retry loop that can never succeed must not keep the worker process alive
     if aw.writer is not None:
         raise AssertionError("AsyncWriter obtained a writer although the lock is held")
     try:
@@ -377,7 +397,7 @@ def run_async_tx(ix, wa, prev_tx, tx, plan, stats):
         raise
     join_or_die(aw, "AsyncWriter thread")
     reraise_thread_error(aw)
-    failed = sum(1 for main, r in px.attempts if r == "locked" and not main)
+    failed = sum(1 for th, r in px.attempts if r == "locked" and th is aw)
     stats.append(("blocked", failed, plan["release"]))
 
 
@@ -1192,6 +1212,157 @@ def case_bw_timer(ctx, idx, rng):
 
 
 # ----------------------------------------------------------------------
+# case kind: async (several AsyncWriters queued behind one lock holder)
+# ----------------------------------------------------------------------
+
+class TaggedProxy(IxProxy):
+    def __init__(self, ix, tag, log):
+        IxProxy.__init__(self, ix)
+        self._tag = tag
+        self._log = log
+
+    def writer(self, **kw):
+        from whoosh.index import LockError
+        try:
+            w = self._ix.writer(**kw)
+        except LockError:
+            self._log.append((self._tag, "locked"))
+            raise
+        self._log.append((self._tag, "ok"))
+        return w
+
+
+_seen_lock_orders = set()
+
+
+def case_async_multi(ctx, idx, rng):
+    """K AsyncWriters are created while another writer holds the lock; each buffers a transaction over its own keys
+    (deletes/updates of committed documents, adds); commit() starts K retry threads that race for the lock once the
+    holder lets go. Whatever order they win in, the final index must hold exactly the model's documents."""
+    from whoosh import writing
+    opts = gen_opts(rng)
+    cfg = {"storage": rng.choice(["file", "nommap", "ram"]), "compound": rng.random() < 0.5, "fe": {"kind": "async"}}
+    wa = {} if cfg["compound"] else {"compound": False}
+    K = rng.choice([2, 2, 3, 4])
+    base = [gen_doc(rng, i, opts, stored_only_ok=False) for i in range(rng.randint(0, 8))]
+    live = dict((d["key"], d) for d in base)
+    shares = [[] for _ in range(K)]
+    for d in base:
+        shares[rng.randrange(K)].append(d["key"])
+    txs = []
+    for k in range(K):
+        ops = []
+        mine = list(shares[k])
+        rng.shuffle(mine)
+        ndel = rng.randint(0, len(mine))
+        for key in mine[:ndel]:
+            ops.append(("delete", key))
+        for key in mine[ndel:]:
+            if rng.random() < 0.5:
+                ops.append(("update", gen_doc(rng, int(key), opts, stored_only_ok=False)))
+        for i in range(rng.randint(1, 5)):
+            ops.append(("add", gen_doc(rng, 100 * (k + 1) + i, opts)))
+        txs.append({"ops": ops, "commit": rng.choice([{}, {"merge": False}, {"optimize": True}])})
+    holder_tx = {"ops": [("add", gen_doc(rng, 900 + i, opts)) for i in range(rng.randint(0, 3))],
+                 "commit": rng.choice([{}, {"merge": False}])}
+    for tx in txs + [holder_tx]:
+        model_apply(live, tx)
+    release_after = rng.randint(0, K)             # the holder lets go after this many commit() calls
+    sleeps = [rng.choice([0, 0, 0.001, 0.004, 0.015]) for _ in range(K + 1)]
+    delays = [rng.choice([0.001, 0.003, 0.01]) for _ in range(K)]
+    w = {"variant": "async-multi", "config": cfg, "opts": opts, "writers": K, "release_after_commit_calls": release_after,
+         "transactions": [[(op[0], op[1] if op[0] == "delete" else op[1]["key"]) for op in tx["ops"]] for tx in txs],
+         "holder_adds": [op[1]["key"] for op in holder_tx["ops"]], "base": [d["key"] for d in base], "case_idx": idx}
+    tmpdir = tempfile.mkdtemp(prefix="vf-c18-")
+    log = []
+    try:
+        st = make_storage(cfg, tmpdir)
+        ix = st.create_index(make_schema(opts))
+        if base:
+            bwr = ix.writer(**wa)
+            for d in base:
+                bwr.add_document(**d)
+            bwr.commit()
+
+        def scenario():
+            holder = ix.writer(**wa)
+            aws = []
+            try:
+                for k in range(K):
+                    aw = bounded("AsyncWriter() blocks on a held lock", writing.AsyncWriter, TaggedProxy(ix, k, log),
+                                 delay=delays[k], writerargs=dict(wa))
+                    aw.daemon = True
+                    aws.append(aw)
+                    if aw.writer is not None:
+                        raise AssertionError("AsyncWriter obtained a writer although the lock is held")
+                apply_ops(holder, holder_tx["ops"])
+                for k in rng.sample(range(K), K):
+                    apply_ops(aws[k], txs[k]["ops"])
+                released = False
+                for n, k in enumerate(rng.sample(range(K), K)):
+                    if n == release_after:
+                        holder.commit(**holder_tx["commit"])
+                        released = True
+                    if sleeps[n]:
+                        time.sleep(sleeps[n])
+                    aws[k].commit(**txs[k]["commit"])
+                if not released:
+                    if sleeps[K]:
+                        time.sleep(sleeps[K])
+                    holder.commit(**holder_tx["commit"])
+            except BaseException:
+                try:
+                    if holder.writelock is not None and not holder.is_closed:
+                        holder.writelock.release()
+                except Exception:  # noqa
+                    pass
+                raise
+            for aw in aws:
+                join_or_die(aw, "AsyncWriter thread")
+            for aw in aws:
+                reraise_thread_error(aw)
+
+        try:
+            ok, _ = ctx.guard("c18.async.exec", w, scenario)
+        except Hang as e:
+            ctx.fail("c18.async.exec", "hang:%s" % e, w, "no progress within 60 s")
+            ok = False
+        ctx.count("c18.asyncmulti.runs")
+        order = tuple(tag for tag, r in log if r == "ok")
+        nlocked = sum(1 for tag, r in log if r == "locked")
+        if ok:
+            ctx.count("c18.asyncmulti.writers", K)
+            ctx.count("c18.asyncmulti.failed_lock_attempts", nlocked)
+            sig = (K, order, release_after)
+            if sig not in _seen_lock_orders:
+                _seen_lock_orders.add(sig)
+                ctx.count("c18.asyncmulti.distinct_lock_orders")
+            if list(order) != sorted(order):
+                ctx.count("c18.asyncmulti.lock_won_out_of_creation_order")
+            ww = dict(w, lock_order=list(order), failed_attempts=nlocked)
+            fx = reopen(st, cfg)
+            try:
+                def cmp():
+                    from vf import dump
+                    rd = model_dump(opts, live)
+                    with fx.reader() as r:
+                        gd = full_dump(r)
+                    if rd != gd:
+                        ds = dump.diff(rd, gd)
+                        part = ds[0].split("/")[1] if ds and "/" in ds[0] else "?"
+                        ctx.fail("c18.async.result", "multi:%s" % part, ww, "model vs index after all AsyncWriters finished:\n" + "\n".join(ds))
+                ctx.count("c18.asyncmulti.dump_checks")
+                ctx.guard("c18.async.result", ww, cmp)
+            finally:
+                fx.close()
+        ctx.case(("async-multi", K, order, release_after, cfg["storage"]), True,
+                 sample={"variant": "async multi", "writers": K, "lock_order": list(order), "failed_attempts": nlocked,
+                         "release_after_commit_calls": release_after} if idx % 5 == 0 else None)
+    finally:
+        shutil.rmtree(tmpdir, ignore_errors=True)
+
+
+# ----------------------------------------------------------------------
 # run
 # ----------------------------------------------------------------------
 
@@ -1203,9 +1374,12 @@ def run(ctx):
         rng = ctx.rng(idx)
         ctx.reseed_global(idx)
         k = idx % 12
-        if k in (0, 1, 2, 3, 4):
+        if k in (0, 1, 2, 3):
             ctx.count("c18.cases.product")
             case_product(ctx, idx, rng, mp=False)
+        elif k == 4:
+            ctx.count("c18.cases.async_multi")
+            case_async_multi(ctx, idx, rng)
         elif k in (5, 6):
             ctx.count("c18.cases.mp")
             case_product(ctx, idx, rng, mp=True)
